@@ -5,6 +5,7 @@
 package main
 
 import (
+	"strings"
 	"bytes"
 	"encoding/base64"
 	"encoding/json"
@@ -101,7 +102,7 @@ func main() { harness.Main("C20", "model_checking", run) }
 
 func run(r *harness.Run) {
 	verifhook.Clock = func() time.Time { return vnow }
-	r.Rule("full product of issue parameters (2 secrets x 2 server names x 2 users x 9 durations) x 6 issue instants (every second-of-minute class, minute/hour boundaries) x validation offsets around every boundary x (same/other secret) x (same/other user), under a virtual clock; for every issued token: every byte x 4 bit patterns of the binary macaroon, every base64 character x 9 substitutes, 9 appended caveats x 2 validating users x before/after expiry, and tokens minted with the right key from every subset/ordering/duplication of the required caveats and malformed expiry caveats. Non-trivial = distinct (token, validation) whose expected verdict is 'refuse' for exactly one reason, or 'accept'. Oracle: reftoken = same secret AND same user AND caveats exactly the three issued AND elapsed seconds < duration.")
+	r.Rule("full product of issue parameters (2 secrets x 2 server names x 2 users x 9 durations) x 6 issue instants (every second-of-minute class, minute/hour boundaries) x validation offsets around every boundary x (same/other secret) x (same user / other user / 7 near misses of the issued user ID: case variants of localpart and domain, padding, truncation, empty), under a virtual clock; for every issued token: every byte x 4 bit patterns of the binary macaroon, every base64 character x 9 substitutes, 9 appended caveats x 2 validating users x before/after expiry, and tokens minted with the right key from every subset/ordering/duplication of the required caveats and malformed expiry caveats. Non-trivial = distinct (token, validation) whose expected verdict is 'refuse' for exactly one reason, or 'accept'. Oracle: reftoken = same secret AND same user AND caveats exactly the three issued AND elapsed seconds < duration.")
 	r.Assume("HMAC-SHA256 / the macaroon library are trusted", "the macaroon location field (server name hint) is unauthenticated by the macaroon format: alterations that leave identifier, caveats and signature byte-identical are not counted as alterations", "textual alterations that base64-decode to identical bytes are the same token")
 
 	type one struct {
@@ -202,7 +203,10 @@ func run(r *harness.Run) {
 						// (1) timing / secret / user product
 						for _, delta := range deltasFor(d) {
 							for _, vs := range secrets {
-								for _, vu := range users {
+								// the other user, and near misses of the issued one (a user ID is an opaque, case-sensitive string)
+								i := strings.IndexByte(usr, ':')
+								valUsers := append(append([]string{}, users...), strings.ToUpper(usr), strings.ToUpper(usr[:i])+usr[i:], usr[:i]+strings.ToUpper(usr[i:]), usr+" ", " "+usr, usr[:len(usr)-1], "")
+								for _, vu := range valUsers {
 									c := one{ip, valP{vs, vu, delta}, "", tok}
 									exp := vs == sec && vu == usr && delta < d
 									report("plain", c, exp, check(c, exp, "case"))
